@@ -15,6 +15,56 @@ def run(rep, prog, tier):
     rep.not_decided += ["the sort order itself, null placement, disjunctness tests (values)"]
     r1(rep, prog)
     r2(rep, prog)
+    r3(rep, prog)
+
+
+def r3(rep, prog):
+    """the sort key of a freshly written sorted segment is an order-preserving image of the value"""
+    import re
+    R = "C17-R3"
+    rep.rule(R, "order-preserving sort key: the closure of ColumnarWriter::sort_order that turns a NumericalValue into the u64 key by which the documents of a new sorted segment are permuted maps each variant through MonotonicallyMappableToU64::to_u64 of the variant's own payload type (u64 / i64 / f64; a bare u64 payload is also accepted): a plain cast or `coerce` is not monotone for negative i64 / dates before 1970, the segment is then written out of order")
+    SO = "tantivy_columnar::columnar::writer::ColumnarWriter::sort_order"
+    cls = [n for n in prog.bodies if n.startswith(SO + "::{closure#") and prog.bodies[n].argc == 2
+           and prog.bodies[n].local_ty_str(2).endswith("value::NumericalValue") and "Option<u64>" in prog.bodies[n].local_ty_str(0)]
+    if not rep.check(len(cls) == 1, R, "the numerical sort-key closure of sort_order", "%s" % [short(c) for c in cls],
+                     "cannot establish: expected one closure NumericalValue -> Option<u64> in ColumnarWriter::sort_order, found %d" % len(cls)):
+        return
+    b = prog.bodies[cls[0]]
+    somes = [(bi, st) for bi in b.normal_blocks() for st in b.stmts(bi) if st.get("r") == "agg" and st.get("adt") == "core::option::Option" and st.get("variant") == "Some"]
+    if not rep.check(len(somes) >= 1, R, "the key closure returns Some(key)", "%d site(s)" % len(somes), "cannot establish: no Some(..) in the key closure", site=b.span):
+        return
+    adt = prog.adts.get("tantivy_columnar::value::NumericalValue")
+    want = {v["name"]: prog.crate_types[adt["_crate"]][v["fields"][0]["ty"]]["s"] for v in adt["variants"]} if adt else {}
+    seen = set()
+    for bi, st in somes:
+        l = op_local(st["o"][0])
+        leaves = provenance(b, l) if l is not None else set()
+        for leaf in sorted(leaves, key=str):
+            if leaf[0] == "call":
+                m = re.match(r"^<(\w+) as tantivy_columnar::column_values::monotonic_mapping::MonotonicallyMappableToU64>::to_u64$", leaf[1])
+                t = b.term(leaf[2])
+                al = op_local(t["args"][0]) if t.get("args") else None
+                tr = trace_back(b, al) if al is not None else []
+                var = next((s[1] for s in tr if s[0] == "downcast"), None)
+                okk = bool(m) and var is not None and want.get(var) == m.group(1) and tr[-1] == ("param", 2)
+                if okk:
+                    seen.add(var)
+                rep.check(okk, R, "key of NumericalValue::%s" % (var or "?"), "%s::to_u64 of the variant's payload" % (m.group(1) if m else "?"),
+                          "the sort key of a sorted segment is computed by `%s` (payload variant %s): not the order-preserving MonotonicallyMappableToU64::to_u64 of the variant's own type; "
+                          "values of both signs are permuted in the wrong order" % (leaf[1], var), site=site(b, leaf[2]))
+            elif leaf[0] == "param":
+                # the payload itself: fine for U64 only
+                tr = trace_back(b, l)
+                var = next((s[1] for s in tr if s[0] == "downcast"), None)
+                okk = var == "U64"
+                if okk:
+                    seen.add(var)
+                rep.check(okk, R, "key of NumericalValue::%s" % (var or "?"), "the u64 payload itself",
+                          "the sort key of a sorted segment uses the raw payload of a non-u64 variant (%s)" % var, site=b.span)
+            else:
+                rep.fail(R, "key source %s" % str(leaf[:2]), "the sort key of a sorted segment has a source that is not an order-preserving mapping of the value: %s" % str(leaf[:2]), site=b.span)
+    rep.check(seen >= set(want), R, "every NumericalValue variant has an order-preserving key", "%s" % sorted(seen),
+              "variants without a recognised order-preserving key: %s" % sorted(set(want) - seen), site=b.span)
 
 
 def root_of(body, o):
